@@ -110,11 +110,13 @@ type Config struct {
 	// OracleFeederOrder, when set, is the order (indices into the oracle-priced assets, i.e. token id - 1) in which the
 	// token feeders are listed: feeder id k+1 then serves token OracleFeederOrder[k]+1.
 	OracleFeederOrder []int
-	Mint           exominttypes.Params
-	Slashing       slashingtypes.Params
+	Mint              exominttypes.Params
+	Slashing          slashingtypes.Params
 	// genesis-loaded undelegation records (C03 variant); must be consistent with the other fields
 	Undelegations []delegationtypes.UndelegationRecord
 	CommunityTax  *sdk.Dec
+	// BlockMaxGas != 0 replaces the consensus parameter block.max_gas (default -1: no limit)
+	BlockMaxGas int64
 }
 
 // Genesis carries the built genesis state and the handles needed later.
